@@ -103,6 +103,12 @@ class RecSession:
             raise ProtocolError("out-of-phase message %d" % n)
         if how == "runtime":
             raise RuntimeError("session code failed on message %d" % n)
+        # the same with an error text far longer than a close reason may be (multi-octet characters)
+        if how == "protocol-long":
+            from autobahn.wamp.exception import ProtocolError
+            raise ProtocolError("out-of-phase message %d: " % n + "d\u00e9tail " * 40)
+        if how == "runtime-long":
+            raise RuntimeError("session code failed on message %d: " % n + "d\u00e9tail " * 40)
 
     def onClose(self, wasClean):
         self._r("onClose", bool(wasClean))
